@@ -13,8 +13,11 @@ Definition Wq (bytes_too : bool) (s : st) : Prop :=
   (if bytes_too then 0 <= low s /\ low s <= high s else True) /\ 2 <= lowc s /\ lowc s <= highc s.
 Notation W := (Wq false).
 
+(* Since b336e09 nothing is resumed once EOF was fed (feed_eof itself resumes), so the
+   "empty buffer => reading" half is about streams that are still open; a reader can only be
+   suspended on an open stream. *)
 Definition NS (s : st) : Prop :=
-  (buf s = [] -> paused s = false) /\ (wt s = Waiting -> buf s = []).
+  (eof s = false -> buf s = [] -> paused s = false) /\ (wt s = Waiting -> buf s = [] /\ eof s = false).
 
 Definition G (s : st) : Prop := Inv s /\ W s /\ NS s.
 
@@ -86,12 +89,12 @@ Proof. unfold wake_ok. destruct (wt s); auto. Qed.
 
 Lemma NS_feed d s : NS s -> NS (fst (feed_data d s)).
 Proof.
-  intros [N1 N2]. unfold feed_data. destruct (eof s); [split; assumption|].
-  destruct d as [|x d]; [split; assumption|]. cbn [fst]. unfold wake_ok. cbn [wt].
+  intros HN. unfold feed_data. destruct (eof s) eqn:Ee; [exact HN|].
+  destruct d as [|x d]; [exact HN|]. destruct HN as [N1 N2]. cbn [fst]. unfold wake_ok. cbn [wt].
   destruct (wt s) eqn:Ew; cbn [size high set_wt];
     match goal with |- NS (if ?c then _ else _) => destruct c end;
-    (split; cbn [buf paused wt do_pause set_paused set_wt];
-     [intros E0; destruct (buf s); discriminate | try discriminate; intros E; congruence]).
+    (split; cbn [buf paused wt eof do_pause set_paused set_wt];
+     [intros _ E0; destruct (buf s); discriminate | try discriminate; intros E; congruence]).
 Qed.
 
 Lemma G_feed d s : G s -> G (fst (feed_data d s)).
@@ -116,9 +119,9 @@ Proof.
   unfold wake_ok in *.
   destruct (chunk_pause (len (l ++ [total s])) (highc s)) eqn:Ec; unfold do_pause in *; cbn [wt set_paused] in *;
     destruct (wt s) eqn:Ew; cbn [set_wt] in *;
-    (split; cbn [buf paused wt set_paused set_wt]; [|try discriminate; intros; congruence]); try exact N1.
+    (split; cbn [buf paused wt eof set_paused set_wt]; [|try discriminate; intros; congruence]); try exact N1.
   (* paused by the chunk count: more than highc >= 1 distinct positions in [cursor, total] need bytes *)
-  all: intros E0; exfalso; pose proof (I_spl _ HI' _ eq_refl) as Hs; cbn [cursor total set_paused set_wt] in Hs;
+  all: intros _ E0; exfalso; pose proof (I_spl _ HI' _ eq_refl) as Hs; cbn [cursor total set_paused set_wt] in Hs;
     apply sorted_in_len in Hs; rewrite E0 in Hsz; cbn [concat] in Hsz; rewrite len_nil in Hsz;
     unfold chunk_pause in Ec; destruct HW as [_ [W3 W4]]; lia.
 Qed.
@@ -128,15 +131,15 @@ Proof.
   intros [HI [HW [N1 N2]]]. split; [apply Inv_eof; exact HI|]. split.
   - unfold feed_eof. destruct (marks_wake_ok (set_eof s true)) as [A [B [C D]]].
     apply (W_same _ s); cbn [low high lowc highc set_paused]; try assumption.
-  - unfold feed_eof. split; cbn [paused set_paused]; [reflexivity|].
-    cbn [wt set_paused]. intros E. exfalso. exact (wake_ok_not_waiting _ E).
+  - unfold feed_eof, wake_ok. cbn [wt set_eof].
+    destruct (wt s) eqn:Ew; split; cbn [buf paused wt eof set_paused set_wt set_eof]; intros; try reflexivity; try discriminate; congruence.
 Qed.
 
 Lemma G_exc e s : G s -> G (set_exception e s).
 Proof.
   intros [HI [HW [N1 N2]]]. split; [apply Inv_exc; exact HI|].
   unfold set_exception, wake_exc. cbn [wt set_exc]. destruct (wt s) eqn:Ew; (split; [apply (W_same _ s); try reflexivity; exact HW|]);
-    split; cbn [buf paused wt set_wt set_exc]; try exact N1; try discriminate; intros E; congruence.
+    split; cbn [buf paused wt eof set_wt set_exc]; try exact N1; try discriminate; intros E; congruence.
 Qed.
 
 Lemma G_pend s v : G s -> G (set_pend s v).
@@ -152,14 +155,14 @@ Qed.
 
 Lemma G_block s : G s -> wt s = NoTask -> buf s = [] -> eof s = false -> wait_exc s = None -> G (set_wt s Waiting).
 Proof.
-  intros [HI [HW [N1 N2]]] _ Hb _ _. split; [apply Inv_wt; exact HI|].
-  split; [apply (W_same _ s); try reflexivity; exact HW|]. split; cbn [buf paused wt set_wt]; auto.
+  intros [HI [HW [N1 N2]]] _ Hb He _. split; [apply Inv_wt; exact HI|].
+  split; [apply (W_same _ s); try reflexivity; exact HW|]. split; cbn [buf paused wt eof set_wt]; auto.
 Qed.
 
 Lemma G_notask s : G s -> G (set_wt s NoTask).
 Proof.
   intros [HI [HW [N1 N2]]]. split; [apply Inv_wt; exact HI|].
-  split; [apply (W_same _ s); try reflexivity; exact HW|]. split; cbn [buf paused wt set_wt]; [exact N1|discriminate].
+  split; [apply (W_same _ s); try reflexivity; exact HW|]. split; cbn [buf paused wt eof set_wt]; [exact N1|discriminate].
 Qed.
 
 Lemma G_pop s l1 l2 : G s -> wt s = NoTask -> splits s = Some (l1 ++ l2) -> G (set_splits s (Some l2)).
@@ -173,14 +176,14 @@ Proof.
   intros [HI [HW [N1 N2]]] Hw. split; [apply Inv_unread; assumption|].
   unfold unread. destruct d as [|x d]; [split; [exact HW|split; assumption]|].
   split; [apply (W_same _ s); try reflexivity; exact HW|].
-  split; cbn [buf paused wt]; [discriminate|congruence].
+  split; cbn [buf paused wt eof]; [intros _ E; discriminate|congruence].
 Qed.
 
 (* the heart of "no stuck pause": the read that empties the buffer passes the resume test *)
-Lemma empty_buffer_resumes s : Inv s -> W s -> buf s = [] -> resume_cond s = true.
+Lemma empty_buffer_resumes s : Inv s -> W s -> eof s = false -> buf s = [] -> resume_cond s = true.
 Proof.
-  intros HI [_ [W3 W4]] Hb. unfold resume_cond. rewrite Hb.
-  apply andb_true_iff. split; [unfold resume_bytes; apply orb_true_r|].
+  intros HI [_ [W3 W4]] He Hb. unfold resume_cond. rewrite Hb, He.
+  apply andb_true_iff. split; [apply andb_true_iff; split; [reflexivity|unfold resume_bytes; apply orb_true_r]|].
   pose proof (I_size s HI) as Hsz. rewrite Hb in Hsz. cbn [concat] in Hsz. rewrite len_nil in Hsz.
   destruct (splits s) as [l|] eqn:El; [|reflexivity].
   pose proof (I_spl s HI l El) as Hs. apply sorted_in_len in Hs. pose proof (I_pos s HI).
@@ -203,15 +206,15 @@ Proof.
   destruct (resume_cond s1) eqn:Er.
   - split; [apply (Inv_same s1); try reflexivity; exact HI1|].
     split; [apply (W_same _ s1); try reflexivity; exact HW1|].
-    split; cbn [buf paused wt set_paused]; [reflexivity|]. intros E. congruence.
+    split; cbn [buf paused wt eof set_paused]; [intros; reflexivity|]. intros E. congruence.
   - split; [exact HI1|]. split; [exact HW1|]. split.
-    + intros E. rewrite (empty_buffer_resumes s1 HI1 HW1 E) in Er. discriminate.
+    + intros He E. rewrite (empty_buffer_resumes s1 HI1 HW1 He E) in Er. discriminate.
     + intros E. congruence.
 Qed.
 
 Lemma G_init limit : G (init limit).
 Proof.
-  split; [apply Inv_init|]. split; [apply W_init; discriminate|]. split; cbn; [reflexivity|discriminate].
+  split; [apply Inv_init|]. split; [apply W_init; discriminate|]. split; cbn; [intros; reflexivity|discriminate].
 Qed.
 
 Theorem G_run limit ops : G (sst (fst (run ops (init_sys limit)))).
@@ -227,13 +230,18 @@ Theorem not_stuck limit ops :
   wt (sst y) = Waiting -> buf (sst y) = [] /\ paused (sst y) = false.
 Proof.
   intros y Hw. destruct (G_run limit ops) as [_ [_ [N1 N2]]]. fold y in N1, N2.
-  split; [auto|]. apply N1. auto.
+  destruct (N2 Hw) as [Hb He]. split; [exact Hb|]. apply N1; assumption.
 Qed.
+
+Theorem waiting_not_eof limit ops :
+  let y := fst (run ops (init_sys limit)) in
+  wt (sst y) = Waiting -> eof (sst y) = false.
+Proof. intros y Hw. destruct (G_run limit ops) as [_ [_ [_ N2]]]. apply N2. exact Hw. Qed.
 
 Theorem empty_buffer_reading limit ops :
   let y := fst (run ops (init_sys limit)) in
-  buf (sst y) = [] -> paused (sst y) = false.
-Proof. intros y Hb. destruct (G_run limit ops) as [_ [_ [N1 _]]]. apply N1. exact Hb. Qed.
+  eof (sst y) = false -> buf (sst y) = [] -> paused (sst y) = false.
+Proof. intros y He Hb. destruct (G_run limit ops) as [_ [_ [N1 _]]]. apply N1; assumption. Qed.
 
 (* pause rule *)
 Theorem feed_pauses d s s' :
@@ -261,7 +269,8 @@ Qed.
 (* resume rule: after a consumption step the transport is paused only if the buffer is non-empty and
    still at or above the low-water mark, or too many chunk splits are outstanding *)
 Definition pause_justified (s : st) : Prop :=
-  paused s = true -> (low s <= size s /\ buf s <> []) \/ exists l, splits s = Some l /\ lowc s <= len l.
+  paused s = true ->
+  eof s = true \/ (low s <= size s /\ buf s <> []) \/ exists l, splits s = Some l /\ lowc s <= len l.
 
 Lemma pj_apply_pitem it s : Wq true s -> paused s = false -> pause_justified (apply_pitem it s) /\ Wq true (apply_pitem it s).
 Proof.
@@ -270,7 +279,7 @@ Proof.
     + unfold feed_data. destruct (eof s); [intros E; cbn in E; congruence|].
       destruct d as [|x d]; [intros E; cbn in E; congruence|]. cbn [fst].
       match goal with |- pause_justified (if ?c then _ else _) => destruct c eqn:Ec end.
-      * intros _. left. unfold feed_pause in Ec. apply Z.ltb_lt in Ec. destruct HW as [[_ W2] _].
+      * intros _. right. left. unfold feed_pause in Ec. apply Z.ltb_lt in Ec. destruct HW as [[_ W2] _].
         unfold wake_ok in *. cbn [wt] in *.
         destruct (wt s); cbn [low size high buf do_pause set_paused set_wt] in *;
           (split; [lia|destruct (buf s); discriminate]).
@@ -278,7 +287,7 @@ Proof.
     + destruct (splits s) as [l|] eqn:El; [|intros E; congruence]. unfold end_chunk. rewrite El.
       destruct (empty_chunk _ _); [intros E; cbn in E; congruence|]. cbn [fst highc].
       destruct (chunk_pause (len (l ++ [total s])) (highc s)) eqn:Ec.
-      * intros _. right. exists (l ++ [total s]). unfold chunk_pause in Ec. apply Z.ltb_lt in Ec.
+      * intros _. right. right. exists (l ++ [total s]). unfold chunk_pause in Ec. apply Z.ltb_lt in Ec.
         destruct HW as [_ [_ W4]].
         unfold wake_ok, do_pause. cbn [wt set_paused]. destruct (wt s); cbn [splits lowc set_wt set_paused]; (split; [reflexivity|lia]).
       * intros E. exfalso. unfold wake_ok in E. cbn [wt] in E. destruct (wt s); cbn in E; congruence.
@@ -307,10 +316,11 @@ Proof.
   - unfold do_resume. cbv zeta. apply pj_deliver.
     + apply (W_same _ s1); try reflexivity; exact HW1.
     + intros E. cbn in E. discriminate.
-  - intros _. unfold resume_cond in Er. apply andb_false_iff in Er as [Er|Er].
-    + left. unfold resume_bytes in Er. apply orb_false_iff in Er as [E1 E2]. unfold resume_size in E1.
+  - intros _. unfold resume_cond in Er. apply andb_false_iff in Er as [Er|Er]; [apply andb_false_iff in Er as [Er|Er]|].
+    + left. destruct (eof s1); [reflexivity|]. vm_compute in Er. discriminate.
+    + right. left. unfold resume_bytes in Er. apply orb_false_iff in Er as [E1 E2]. unfold resume_size in E1.
       split; [lia|]. destruct (buf s1); [discriminate|discriminate].
-    + right. destruct (splits s1) as [l|]; [|discriminate]. exists l. split; [reflexivity|].
+    + right. right. destruct (splits s1) as [l|]; [|discriminate]. exists l. split; [reflexivity|].
       unfold resume_chunks in Er. lia.
 Qed.
 
